@@ -141,6 +141,14 @@ func (fs LocalFileSystem) ReadDir(ctx context.Context, name string, recursive bo
 			return err
 		}
 
+		if fi.Mode()&os.ModeSymlink != 0 {
+			// Walk doesn't follow symbolic links: for a link to a regular
+			// file, report the file's metadata like Stat does
+			if target, err := os.Stat(p); err == nil && target.Mode().IsRegular() {
+				fi = target
+			}
+		}
+
 		l = append(l, *fileInfoFromOS(href, fi))
 
 		if !recursive && fi.IsDir() && path != p {
